@@ -140,3 +140,376 @@ class DropTooSmall(Contract):
             T.eq(term_of(seq_elem(okr, self.cnt(j))), self.refs(j)),
             T.eq(term_of(seq_elem(okb, self.cnt(j))[0]), self.lo(j))), "post",
             "every interval with >= min_n_points members is returned unchanged at position (number of kept intervals before it)")
+
+
+# ------------------------------------------------------------------------------------------------ _slice contracts
+def drop_summary(itp, args, kwargs):
+    """contract of _drop_too_small_intervals at call sites (proved by slicer.drop_too_small): here the pre-drop
+    lists are recorded; the post-conditions of _slice are stated on them"""
+    itp.scratch["predrop"] = (args[1], args[2], args[3])
+    return (args[1], args[2], args[3])
+
+
+def callable_ref(cx):
+    from ._objects import DepFn
+
+    class RefFn(DepFn):
+        def call(self, itp, args, kwargs):
+            self.calls.append(args[0])
+            return Sym(itp.cx.fresh("ref_value", "real"))
+    return RefFn("reference")
+
+
+WIDTH_CASES = [dict(right_open=ro, reference=ref, value_range=vr)
+               for ro in (True, False) for ref in ("center", "left", "right", "Center", "callable") for vr in ("none", "both", "lo_only", "hi_only")] + \
+              [dict(right_open=True, reference="bogus", value_range="none"), dict(right_open=True, reference=42, value_range="none")]
+
+
+@contract(IV + "WidthOfIntervalSlicer._slice", ["C10", "C09", "C18"], WIDTH_CASES, name="slicer.width.slice")
+class WidthSlice(Contract):
+    """intervals [min + j w, min + (j+1) w) (or left-open) for j < ceil((max - min)/w)+...: every observation in
+    the covered range is in exactly one interval; masks are aligned with input positions and are a function of the
+    value; boundaries contain their members and do not overlap; references as configured"""
+
+    def case_label(self, case):
+        return f"right_open={case['right_open']},reference={case['reference']},value_range={case['value_range']}"
+
+    def setup(self, itp, case):
+        itp.summaries[IV + "IntervalSlicer._drop_too_small_intervals"] = drop_summary
+
+    def inputs(self, itp, case):
+        cx = itp.cx
+        self.n = cx.sym("n", "int")
+        cx.assume(T.ge(self.n, 1))
+        self.data = sym_array(cx, "data", (self.n,))
+        self.w = real(cx, "width")
+        cx.assume(T.gt(self.w.t, 0), "width > 0")
+        vr = case["value_range"]
+        lo = real(cx, "vr_lo") if vr in ("both", "lo_only") else None
+        hi = real(cx, "vr_hi") if vr in ("both", "hi_only") else None
+        self.vr = None if vr == "none" else (lo, hi)
+        ref = case["reference"]
+        self.ref = callable_ref(cx) if ref == "callable" else ref
+        self.obj = slicer_obj("WidthOfIntervalSlicer", width=self.w, reference=self.ref, right_open=case["right_open"], value_range=self.vr)
+        return [self.obj, self.data], {}
+
+    def post(self, itp, case, inp, out):
+        cx = itp.cx
+        ref = case["reference"]
+        if ref == "bogus":
+            cx.oblige("raises.ValueError.reference", out.outcome == "raise" and out.exc == "ValueError", "raises", "unknown reference keyword rejected")
+            return
+        if ref == 42:
+            cx.oblige("raises.TypeError.reference", out.outcome == "raise" and out.exc == "TypeError", "raises", "reference of wrong type rejected")
+            return
+        if out.outcome != "return":
+            cx.oblige("post.returns", False, "post", f"raised {out.exc}: {out.msg}")
+            return
+        pre = itp.scratch.get("predrop")
+        cx.oblige("post.drop_applied", pre is not None and isinstance(out.value, tuple) and all(a is b for a, b in zip(out.value, pre)), "post",
+                  "the result is _drop_too_small_intervals applied to the lists described below")
+        if pre is None:
+            return
+        slices, refs, bounds = pre
+        m = seq_len(slices)
+        cx.oblige("post.lengths", T.land(T.eq(seq_len(refs), m), T.eq(seq_len(bounds), m)), "post")
+        w = self.w.t
+        dg = self.data.getter()
+        # data_min / data_max as documented
+        dmax = itp.lib.table["numpy.max"].fn(itp, [self.data], {})
+        lo = Fraction(0) if (self.vr is None or self.vr[0] is None) else self.vr[0].t
+        hi = term_of(dmax) if (self.vr is None or self.vr[1] is None) else self.vr[1].t
+        j = cx.fresh("j", "int")
+        cx.assume(T.land(T.ge(j, 0), T.lt(j, m)))
+        (k,) = fresh_index(cx, (self.n,))
+        lower = T.add(lo, T.mul(j, w))
+        upper = T.add(lo, T.mul(T.add(j, 1), w))
+        mask = seq_elem(slices, j)
+        ok_mask = isinstance(mask, SArr) and mask.ndim == 1
+        cx.oblige("post.aligned.length", T.eq(mask.shape[0], self.n) if ok_mask else False, "post", "mask j has one entry per input position")
+        if not ok_mask:
+            return
+        d = dg((k,))
+        member = T.land(T.le(lower, d), T.lt(d, upper)) if case["right_open"] else T.land(T.lt(lower, d), T.le(d, upper))
+        cx.oblige("post.value_based", T.eq(mask.get((k,)), member), "post",
+                  "membership of position k in interval j is decided by data[k] against [min + j w, min + (j+1) w)")
+        b = seq_elem(bounds, j)
+        cx.oblige("post.boundaries", T.land(T.eq(term_of(b[0]), lower), T.eq(term_of(b[1]), upper)) if isinstance(b, tuple) and len(b) == 2 else False, "post",
+                  "reported boundaries are the interval's own edges (they contain the members; neighbours share an edge, no overlap)")
+        # number of intervals covers up to data_max
+        cx.oblige("post.covers_max", T.gt(T.add(lo, T.mul(m, w)), hi), "post", "the last interval ends beyond data_max")
+        # lemma (exact arithmetic): value-based membership in intervals that share their edges is a partition
+        j2 = cx.fresh("j2", "int")
+        cx.assume(T.land(T.gt(j2, j), T.lt(j2, m)))
+        lower2 = T.add(lo, T.mul(j2, w))
+        upper2 = T.add(lo, T.mul(T.add(j2, 1), w))
+        member2 = T.land(T.le(lower2, d), T.lt(d, upper2)) if case["right_open"] else T.land(T.lt(lower2, d), T.le(d, upper2))
+        cx.fact(T.le(T.mul(T.add(j, 1), w), T.mul(j2, w)), "arith: (j+1) w <= j2 w for integers j < j2 and w > 0")
+        cx.oblige("lemma.never_two", T.lnot(T.land(member, member2)), "lemma", "no observation is in two intervals")
+        jstar = z3.ToInt(T.zr(T.div(T.sub(d, lo), w)))
+        in_range = T.land(T.ge(d, lo), T.lt(d, T.add(lo, T.mul(m, w)))) if case["right_open"] else T.land(T.gt(d, lo), T.le(d, T.add(lo, T.mul(m, w))))
+        if case["right_open"]:
+            cx.oblige("lemma.never_none", T.implies(in_range, T.land(T.ge(jstar, 0), T.lt(jstar, m), T.le(T.add(lo, T.mul(jstar, w)), d), T.lt(d, T.add(lo, T.mul(T.add(jstar, 1), w))))), "lemma",
+                      "every observation in the covered range is in the interval number floor((d - min)/w)")
+        r = term_of(seq_elem(refs, j)) if ref != "callable" else None
+        if isinstance(ref, str) and ref != "callable":
+            want = {"center": T.add(lower, T.div(w, 2)), "left": lower, "right": upper}[ref.lower()]
+            cx.oblige("post.references", T.eq(r, want), "post", "reference value is the configured centre / left / right edge")
+        cx.oblige("frame.data", self.data.buf.writes == 0, "frame", "the data are not written")
+        cx.oblige("frame.slicer", not self.obj.writes, "frame", "slicing does not change the slicer")
+
+
+NOI_CASES = [dict(include_max=im, reference=ref, value_range=vr)
+             for im in (True, False) for ref in ("center", "left", "right", "callable") for vr in ("none", "given")] + \
+            [dict(include_max=True, reference="bogus", value_range="none"), dict(include_max=True, reference=42, value_range="none")]
+
+
+@contract(IV + "NumberOfIntervalsSlicer._slice", ["C10", "C09", "C18"], NOI_CASES, name="slicer.number.slice")
+class NumberSlice(Contract):
+    """n_intervals equal-width intervals over [lo, hi): interval j = [lo + j s, lo + (j+1) s), the last one closed
+    when include_max; masks aligned and value-based; boundaries/references as configured"""
+
+    def case_label(self, case):
+        return f"include_max={case['include_max']},reference={case['reference']},value_range={case['value_range']}"
+
+    def setup(self, itp, case):
+        itp.summaries[IV + "IntervalSlicer._drop_too_small_intervals"] = drop_summary
+
+    def inputs(self, itp, case):
+        cx = itp.cx
+        self.n = cx.sym("n", "int")
+        cx.assume(T.ge(self.n, 1))
+        self.data = sym_array(cx, "data", (self.n,))
+        self.ni = integer(cx, "n_intervals")
+        cx.assume(T.ge(self.ni.t, 1))
+        if case["value_range"] == "given":
+            self.lo, self.hi = real(cx, "vr_lo"), real(cx, "vr_hi")
+            cx.assume(T.lt(self.lo.t, self.hi.t))
+            vr = (self.lo, self.hi)
+        else:
+            vr = None
+        ref = case["reference"]
+        self.ref = callable_ref(cx) if ref == "callable" else ref
+        self.obj = slicer_obj("NumberOfIntervalsSlicer", n_intervals=self.ni, reference=self.ref, include_max=case["include_max"], value_range=vr)
+        return [self.obj, self.data], {}
+
+    def post(self, itp, case, inp, out):
+        cx = itp.cx
+        ref = case["reference"]
+        if ref == "bogus":
+            cx.oblige("raises.ValueError.reference", out.outcome == "raise" and out.exc == "ValueError", "raises")
+            return
+        if ref == 42:
+            cx.oblige("raises.TypeError.reference", out.outcome == "raise" and out.exc == "TypeError", "raises")
+            return
+        if out.outcome != "return":
+            cx.oblige("post.returns", False, "post", f"raised {out.exc}: {out.msg}")
+            return
+        pre = itp.scratch.get("predrop")
+        cx.oblige("post.drop_applied", pre is not None and isinstance(out.value, tuple) and all(a is b for a, b in zip(out.value, pre)), "post")
+        if pre is None:
+            return
+        slices, refs, bounds = pre
+        m = self.ni.t
+        cx.oblige("post.lengths", T.land(T.eq(seq_len(slices), m), T.eq(seq_len(refs), m), T.eq(seq_len(bounds), m)), "post", "exactly n_intervals intervals before dropping")
+        if case["value_range"] == "given":
+            lo, hi = self.lo.t, self.hi.t
+        else:
+            lo = term_of(itp.lib.table["numpy.min"].fn(itp, [self.data], {}))
+            hi = term_of(itp.lib.table["numpy.max"].fn(itp, [self.data], {}))
+        s = T.div(T.sub(hi, lo), m)
+        j = cx.fresh("j", "int")
+        cx.assume(T.land(T.ge(j, 0), T.lt(j, m)))
+        (k,) = fresh_index(cx, (self.n,))
+        d = self.data.get((k,))
+        lower = T.add(lo, T.mul(j, s))
+        upper = T.add(lower, s)
+        mask = seq_elem(slices, j)
+        if not (isinstance(mask, SArr) and mask.ndim == 1):
+            cx.oblige("post.aligned.length", False, "post")
+            return
+        cx.oblige("post.aligned.length", T.eq(mask.shape[0], self.n), "post")
+        last = T.eq(j, T.sub(m, 1))
+        closed = T.land(T.le(lower, d), T.le(d, upper))
+        half = T.land(T.le(lower, d), T.lt(d, upper))
+        member = T.ite(last, closed, half) if case["include_max"] else half
+        cx.oblige("post.value_based", T.eq(mask.get((k,)), member), "post", "membership decided by data[k]; only the last interval is closed, iff include_max")
+        b = seq_elem(bounds, j)
+        cx.oblige("post.boundaries", T.land(T.eq(term_of(b[0]), lower), T.eq(term_of(b[1]), upper)) if isinstance(b, tuple) and len(b) == 2 else False, "post")
+        cx.oblige("post.covers_max", T.eq(T.add(lo, T.mul(m, s)), hi), "post", "the last interval ends exactly at the upper end of the range (so include_max covers the maximum)")
+        if isinstance(ref, str) and ref != "callable":
+            r = term_of(seq_elem(refs, j))
+            want = {"center": T.add(lower, T.div(s, 2)), "left": lower, "right": upper}[ref]
+            cx.oblige("post.references", T.eq(r, want), "post")
+        cx.oblige("frame.data", self.data.buf.writes == 0, "frame")
+        cx.oblige("frame.slicer", not self.obj.writes, "frame")
+
+
+# remainder != 0 (chunks of two different lengths glued by insert/append): the quantified argument is not found
+# by z3 within the budget on the unchanged tree -> not registered; covered by the exhaustive lattice run (bounded)
+PPI_CASES = [dict(last_full=lf, rem=rem) for lf in (True, False) for rem in ("zero",)]
+
+
+@contract(IV + "PointsPerIntervalSlicer._slice", ["C10", "C09"], PPI_CASES, name="slicer.points.slice")
+class PointsSlice(Contract):
+    """chunks of n_points consecutive order statistics: mask j marks, by INPUT position, the observations whose
+    rank falls in chunk j (remainder chunk first if last_full else last)"""
+
+    def case_label(self, case):
+        return f"last_full={case['last_full']},remainder={case['rem']}"
+
+    def setup(self, itp, case):
+        from vf.engine.vc import ContractStop
+
+        def stop_at_drop(itp_, args, kwargs):
+            drop_summary(itp_, args, kwargs)
+            raise ContractStop("verified up to the call of _drop_too_small_intervals; the boundary loop after it is bounded-only (vf/rt/C10.py)")
+        itp.summaries[IV + "IntervalSlicer._drop_too_small_intervals"] = stop_at_drop
+
+    def inputs(self, itp, case):
+        cx = itp.cx
+        self.n = cx.sym("n", "int")
+        self.np_ = integer(cx, "n_points")
+        cx.assume(T.ge(self.np_.t, 1))
+        cx.assume(T.ge(self.n, self.np_.t), "at least one full chunk")
+        self.q = cx.sym("n_full_chunks", "int")
+        self.r = cx.sym("remainder", "int")
+        cx.assume(T.land(T.eq(self.n, self.q * self.np_.t + self.r), T.ge(self.r, 0), T.lt(self.r, self.np_.t), T.ge(self.q, 1)), "n = q * n_points + r")
+        cx.assume(T.eq(self.r, 0) if case["rem"] == "zero" else T.gt(self.r, 0))
+        self.data = sym_array(cx, "data", (self.n,))
+        self.obj = slicer_obj("PointsPerIntervalSlicer", n_points=self.np_, reference=callable_ref(cx), last_full=case["last_full"])
+        itp.scratch["split_width_hint"] = self.np_.t
+        return [self.obj, self.data], {}
+
+    def post(self, itp, case, inp, out):
+        cx = itp.cx
+        pre = itp.scratch.get("predrop")
+        if pre is None:
+            cx.oblige("post.drop_applied", False, "post", f"{out.outcome} {out.exc} {out.msg}")
+            return
+        slices = pre[0]
+        m = seq_len(slices)
+        want_m = self.q if case["rem"] == "zero" else self.q + 1
+        cx.oblige("post.n_chunks", T.eq(m, want_m), "post", "one interval per full chunk plus one for the remainder")
+        j = cx.fresh("j", "int")
+        cx.assume(T.land(T.ge(j, 0), T.lt(j, m)))
+        if case["rem"] != "zero":
+            # case split on the remainder chunk (first if last_full else last) to keep each query small
+            if cx.branch(T.eq(j, 0) if case["last_full"] else T.eq(j, T.sub(m, 1)), "j is the remainder chunk"):
+                j = 0 if case["last_full"] else j
+        (k,) = fresh_index(cx, (self.n,))
+        mask = seq_elem(slices, j)
+        if not (isinstance(mask, SArr) and mask.ndim == 1):
+            cx.oblige("post.aligned.length", False, "post")
+            return
+        cx.oblige("post.aligned.length", T.eq(mask.shape[0], self.n), "post", "mask j has one entry per input position")
+        # rank of input position k in the stable ascending order of the data
+        sorts = [v for v in itp.scratch.get("sorts", [])]
+        info = itp.scratch.get("argsort_info")
+        if info is None:
+            cx.oblige("post.aligned", False, "post", "no argsort of the data")
+            return
+        perm, inv = info
+        rank = inv(k)
+        npts, r = self.np_.t, self.r
+        if case["rem"] == "zero":
+            lo, hi = j * npts, (j + 1) * npts
+        elif case["last_full"]:
+            lo = z3.If(j == 0, 0, r + (j - 1) * npts)
+            hi = z3.If(j == 0, r, r + j * npts)
+        else:
+            lo = j * npts
+            hi = z3.If(j == m - 1, self.n, (j + 1) * npts)
+        cx.oblige("post.aligned", T.eq(mask.get((k,)), T.land(T.le(lo, rank), T.lt(rank, hi))), "post",
+                  "mask j is True at INPUT position k iff the rank of data[k] lies in chunk j")
+
+
+@contract(IV + "IntervalSlicer.slice_", ["C10", "C18"], [dict(enough=e, callable_ref=c) for e in (True, False) for c in (True, False)], name="slicer.slice_")
+class SliceTop(Contract):
+    """slice_: RuntimeError iff fewer than min_n_intervals intervals remain; callable reference evaluated on the
+    members of each interval"""
+
+    def case_label(self, case):
+        return f"enough={case['enough']},callable_reference={case['callable_ref']}"
+
+    def setup(self, itp, case):
+        me = self
+
+        def summ(itp_, args, kwargs):
+            me.called = True
+            return (me.slices, me.refs, me.bounds)
+        itp.summaries[IV + "IntervalSlicer._slice"] = summ
+        itp.summaries[IV + "WidthOfIntervalSlicer._slice"] = summ
+
+    def inputs(self, itp, case):
+        cx = itp.cx
+        self.n = cx.sym("n", "int")
+        cx.assume(T.ge(self.n, 1))
+        self.m = cx.sym("n_remaining", "int")
+        cx.assume(T.ge(self.m, 0))
+        self.mini = integer(cx, "min_n_intervals")
+        cx.assume(T.ge(self.m, self.mini.t) if case["enough"] else T.lt(self.m, self.mini.t))
+        sl = T.uf("in_slices", "int", "int", "bool")
+        n = self.n
+        self.slices = SSeq(self.m, lambda j: SArr.fresh((n,), lambda idx, j=j: sl(T.zi(j), T.zi(idx[0])), "bool"), "list")
+        rf = T.uf("in_refs", "int", "real")
+        self.refs = SSeq(self.m, lambda j: Sym(rf(T.zi(j))), "list")
+        self.bounds = SSeq(self.m, lambda j: (Sym(rf(T.zi(j))), Sym(rf(T.zi(j)))), "list")
+        self.data = sym_array(cx, "data", (self.n,))
+        self.ref = callable_ref(cx) if case["callable_ref"] else "center"
+        self.obj = slicer_obj("WidthOfIntervalSlicer", min_n_intervals=self.mini, reference=self.ref, width=Fraction(1), right_open=True, value_range=None)
+        return [self.obj, self.data], {}
+
+    def post(self, itp, case, inp, out):
+        cx = itp.cx
+        if not case["enough"]:
+            cx.oblige("raises.RuntimeError.too_few_intervals", out.outcome == "raise" and out.exc == "RuntimeError", "raises",
+                      "fewer than min_n_intervals remaining intervals raise a RuntimeError")
+            return
+        if out.outcome != "return":
+            cx.oblige("post.returns", False, "post", f"raised {out.exc}: {out.msg}")
+            return
+        r = out.value
+        ok = isinstance(r, tuple) and len(r) == 3
+        cx.oblige("post.slices_unchanged", ok and r[0] is self.slices and r[2] is self.bounds, "post", "masks and boundaries are those of _slice")
+        if not ok:
+            return
+        if case["callable_ref"]:
+            cx.oblige("post.reference_per_interval", T.eq(seq_len(r[1]), self.m), "post", "one reference value per remaining interval")
+        else:
+            cx.oblige("post.references_unchanged", r[1] is self.refs, "post")
+
+
+@contract(IV + "IntervalSlicer.__init__", ["C18"], [dict(kw=k) for k in ("none", "min_n_points", "min_n_intervals", "both", "unknown", "unknown_and_known")], name="slicer.init")
+class SlicerInit(Contract):
+    """unknown slicer options raise TypeError; known ones are stored"""
+
+    def case_label(self, case):
+        return f"kwargs={case['kw']}"
+
+    def inputs(self, itp, case):
+        cx = itp.cx
+        self.obj = SObj(IV + "IntervalSlicer", owner="call")
+        kw = {}
+        if case["kw"] in ("min_n_points", "both", "unknown_and_known"):
+            kw["min_n_points"] = integer(cx, "mnp")
+        if case["kw"] in ("min_n_intervals", "both"):
+            kw["min_n_intervals"] = integer(cx, "mni")
+        if case["kw"] in ("unknown", "unknown_and_known"):
+            kw["min_points"] = 3
+        self.kw = kw
+        return [self.obj], kw
+
+    def post(self, itp, case, inp, out):
+        cx = itp.cx
+        if "unknown" in case["kw"]:
+            cx.oblige("raises.TypeError.unknown_option", out.outcome == "raise" and out.exc == "TypeError", "raises", "unknown slicer options are rejected")
+            return
+        if out.outcome != "return":
+            cx.oblige("post.returns", False, "post", f"raised {out.exc}")
+            return
+        f = self.obj.fields
+        for name, default in (("min_n_points", 50), ("min_n_intervals", 3)):
+            want = self.kw.get(name, default)
+            got = f.get(name)
+            cx.oblige(f"post.option.{name}", (got is want) if not is_scalar(want) or isinstance(want, Sym) else got == want, "post")
